@@ -230,6 +230,25 @@ def interpret_statements(prog: Any, module: Any, stmts: Iterable[ast.stmt], extr
                     it.run([st])
                 except AnalysisError:
                     pass
+    # names taken from the pure standard library are themselves (reduce, or_, chain, …): a grammar may be folded together
+    from .tabulate import PURE_STDLIB
+    import importlib
+    for st in module.tree.body:
+        if isinstance(st, ast.ImportFrom) and not st.level and (st.module or "").split(".")[0] in PURE_STDLIB:
+            for al in st.names:
+                nm = al.asname or al.name
+                if nm not in it.env:
+                    try:
+                        it.env[nm] = getattr(importlib.import_module(st.module), al.name)
+                    except Exception:
+                        pass
+        elif isinstance(st, ast.Import):
+            for al in st.names:
+                if al.name.split(".")[0] in PURE_STDLIB and (al.asname or al.name.split(".")[0]) not in it.env:
+                    try:
+                        it.env[al.asname or al.name.split(".")[0]] = importlib.import_module(al.name if al.asname else al.name.split(".")[0])
+                    except Exception:
+                        pass
     for st in stmts:
         if isinstance(st, (ast.Import, ast.ImportFrom, ast.ClassDef, ast.Return)):
             continue
